@@ -20,7 +20,7 @@ RULE = ("(i) bounded-exhaustive: all sets of <=3 (quick) / <=4 (thorough) transl
         "column, or_other with translations, duplicate id headers, language labels with/without valid/invalid/malformed codes) "
         "planted in broad forms with blank rows above; non-trivial = >=1 expected warning and >=1 near miss; distinct by SHA-1")
 ASSUMPTIONS = ["trigger model restated in vf/ref/warns.py (own Levenshtein, own translation-matrix rule, fixed list of well-known IANA codes)",
-               "languages shorter than 3 characters and codes outside the fixed lists are not prescribed either way"]
+               "language codes outside the fixed lists are not prescribed either way"]
 BUDGET = {"quick": 8000, "thorough": 300000}
 EXHAUSTIVE = {"quick": False, "thorough": True}
 EXHAUSTIVE_NOTE = "thorough: exhaustive over header sets up to 4 per sheet and over the distance-<=2 neighbourhood of 'settings'/'entities' on the stated alphabet"
@@ -84,7 +84,7 @@ def enumerate_cases(tier):
 
 
 LANG_LABELS = ["English (en)", "French (fr)", "Swahili (sw)", "Tok Pisin (tpi)", "English (eng)", "English", "Klingon", "English (xx)",
-               "English (zz)", "Deutsch (english)", "English (en", "English en)", "(en) English", "English ()", "Nepali (ne)", "Amharic (am)"]
+               "English (zz)", "Deutsch (english)", "English (en", "English en)", "(en) English", "English ()", "Nepali (ne)", "Amharic (am)", "xx", "EN", "q", "()"]
 
 
 @st.composite
@@ -131,6 +131,13 @@ def _cases(draw):
         form.setdefault("settings", {})["allow_choice_duplicates"] = "yes"
     if g.p("_", 0.3):
         form["extra_sheets"] = [g.pick(["setting", "settingss", "_settings", "Settings2", "entity", "entitie", "_entities", "notes", "sett", "choicez", "osmm"])]
+    if not form.get("settings") and g.p("_", 0.2):
+        # a settings sheet that only has its header row yet, perhaps beside an unrelated sheet with a similar name
+        form["settings_header_only"] = ["form_title", "form_id", "version"]
+        if g.p("_", 0.5):
+            form["sheet_names"] = dict(form.get("sheet_names", {}), settings=g.pick(["Settings", "SETTINGS", "settings"]))
+        if g.p("_", 0.5):
+            form["extra_sheets"] = [g.pick(["settings2", "setting", "notes"])]
     return {"form": form, "meta": {"kind": "random"}}
 
 
